@@ -19,6 +19,7 @@ import (
 	"github.com/aptpod/iscp-go/internal/vsched"
 	"github.com/aptpod/iscp-go/iscp"
 	"github.com/aptpod/iscp-go/message"
+	"github.com/aptpod/iscp-go/transport"
 )
 
 const callTimeout = 5 * time.Second
@@ -42,6 +43,9 @@ func scenarios(tier string) []vlib.Scenario {
 	for _, a := range []string{"openup", "meta", "upclose", "connclose"} {
 		out = append(out, vlib.Scenario{Name: params{a, 1, 1}.name(), P: params{a, 1, 1}})
 	}
+	// Conn.Close during an outage whose redials all fail (broker unreachable): must return within its context
+	out = append(out, vlib.Scenario{Name: params{"closeoutage", 0, 0}.name(), P: params{"closeoutage", 0, 0}})
+	out = append(out, vlib.Scenario{Name: params{"closeoutage", 0, 1}.name(), P: params{"closeoutage", 0, 1}})
 	if tier == "thorough" {
 		for _, a := range apis {
 			if a != "openup" && a != "meta" && a != "upclose" && a != "connclose" {
@@ -75,6 +79,7 @@ type callRec struct {
 }
 
 type world struct {
+	unreachable         bool
 	awaitedLate         bool
 	connsBeforeFollowup int
 	connsAtEnd          int
@@ -121,6 +126,7 @@ func (w *world) eligible(m message.Message) bool {
 func (w *world) script() *sim.Script {
 	s := &sim.Script{}
 	w.rxn = map[string]int{}
+	s.AcceptDial = func(n int, cfg transport.DialConfig) (bool, time.Duration) { return !w.unreachable, 0 }
 	s.OnMessage = func(b *sim.Broker, c *sim.BConn, m message.Message) bool {
 		if (w.Phase != "call" && w.Phase != "followup") || !w.eligible(m) || (c.Idx == 0 && w.Phase != "call") {
 			return false
@@ -257,6 +263,14 @@ func (w *world) main() {
 	}
 	w.Phase = "call"
 	switch api {
+	case "closeoutage":
+		w.unreachable = true
+		w.B.Cut(w.B.Live())
+		if vsched.Choose("close-when", 2) == 1 {
+			vsched.Sleep(3*time.Second, "h:outage") // several redial attempts have failed by now
+		}
+		w.timed("Conn.Close", callTimeout, false, func(ctx context.Context) error { return w.Conn.Close(ctx) })
+		api = "connclose"
 	case "openup":
 		w.timed("OpenUpstream", callTimeout, false, func(ctx context.Context) error {
 			_, err := w.OpenUp(ctx, "u-late", iscp.WithUpstreamFlushPolicyNone())
